@@ -99,6 +99,13 @@ TAIL_C08 = '''(* non-vacuity of C08_peer_read_never_deadlocks: a GetValues query
    reply (gm = 1): all hypotheses hold, the read returns the Stdin bytes; with the gate at 2 replies the read does deadlock *)
 Example C08_peer_example : forall fuel dest w', await_input 10 fuel dest ex_peer_r ex_peer_w <> Halt ODeadlock w'.
 Proof. exact ex_peer_no_deadlock. Qed.
+
+(* non-vacuity of C08_peer_never_deadlocks: a request whose Stdin carries a GetValues query in segment 1 and whose second segment is
+   gated on that reply: the hypotheses hold and the run returns; with the gate asking for 2 replies the peer condition fails and
+   the run does end in the wait-for cycle *)
+Example C08_connection_example : forall norm maxc,
+  fst (run_loop norm maxc (nb (ex2_w 1) + 4) (new_parser 64) ex2_scripts 0 (ex2_w 1)) = ORet.
+Proof. exact ex2_never_deadlocks. Qed.
 '''
 
 if "C08" in which:
@@ -107,7 +114,7 @@ if "C08" in which:
    records until it has seen the replies it waits for; PBlock = Pending without a wake-up).  Proofs: Async/ConnTotal.v
    (totality), Async/ConnReads.v (accounting at every suspension point).  R is the reply specification of
    Parser/StreamSpec.v: the replies owed for a byte string by a parser in a given state. *)
-From FV Require Import %s%s Async.PeerTargets Async.PeerProofs.
+From FV Require Import %s%s Async.PeerTargets Async.PeerProofs Async.PeerTargets2 Async.PeerProofs2.
 ''' % (PRE, CR)
     put("C08", "", [
         ("the only way the task can be suspended without a pending wake-up is a transport read that a GATED client does not "
@@ -140,6 +147,11 @@ From FV Require Import %s%s Async.PeerTargets Async.PeerProofs.
          ["peer_read_no_deadlock_stmt", "gates_owed_only"]),
         ("between requests: the log has grown by exactly the (complete-record) outputs of the parse calls made, counted additively, when "
          "parse_request waits for the client", "parse_request_block_counts", "C08_parse_request_block_counts", ["parse_request_block_counts_stmt"]),
+        ("MAIN, whole connection: on a fault-free transport, for EVERY buffer size, every list of well-formed handler scripts (reading, "
+         "buffered reading, stream switching, writing, early return, own status, failing), every read/write readiness pattern and every "
+         "client whose segments are whole records and whose gates ask only for management replies owed for records of EARLIER segments "
+         "(pipelining allowed), the connection task RETURNS: server and peer never wait for each other", "peer_never_deadlocks",
+         "C08_peer_never_deadlocks", ["peer_never_deadlocks_stmt"]),
     ], head=head, tail=TAIL_C08)
 
 if "C09" in which:
